@@ -3,7 +3,7 @@ import itertools
 
 from hypothesis import strategies as st
 
-from vlib.core import Part, Violation, call, canonical, watchdog
+from vlib.core import call_twice, Part, Violation, call, canonical, watchdog
 from vlib.models import TableGrader
 from vlib.oracles import best_assignments
 
@@ -408,9 +408,10 @@ def judge_built(spec, grader, top, rec):
     summary = []
     for od in orders:
         inputs = [base_inputs[i] for i in od]
-        with watchdog(10):
-            status, res = call(grader, None, list(inputs))
-        rec.calls()
+        with watchdog(20):
+            # (twice on the same grader object: the resubmission must get the same outcome, vlib.core.call_twice)
+            status, res = call_twice(grader, lambda: None, None, list(inputs))
+        rec.calls(2)
         if status == 'err':
             raise Violation('raised/' + type(res).__name__, 'grading a well-formed submission raised %s: %s'
                             % (type(res).__name__, str(res)[:300]), inputs=inputs)
@@ -987,7 +988,62 @@ def judge_sibling_history(spec, rec):
     return {'seq': spec['seq']}
 
 
+
+# ----------------------------------------------------------------------------------------------------
+# 'nested-reuse' (exhaustive): ONE ListGrader / SingleListGrader object with answers of its own serves as the nested
+# subgrader of an outer ListGrader AND grades its own problem; building and using the outer grader must not change what
+# the inner one does with its own answers (a seeded change stored the outer grader's group answers in the inner config)
+
+def _nested_world(kind, unordered_inner):
+    from mitxgraders import StringGrader
+    if kind == 'list':
+        inner = ListGrader(answers=['a', 'b', 'c'], subgraders=StringGrader(), ordered=not unordered_inner)
+        fresh = ListGrader(answers=['a', 'b', 'c'], subgraders=StringGrader(), ordered=not unordered_inner)
+        outer = lambda: ListGrader(answers=[['x', 'y', 'z'], ['p', 'q', 'r']], subgraders=inner,     # noqa: E731
+                                   grouping=[1, 1, 1, 2, 2, 2])
+        own = [['a', 'b', 'c'], ['c', 'a', 'b'], ['a', 'b', 'x'], ['p', 'q', 'r'], ['x', 'y', 'z']]
+        outer_in = [['x', 'y', 'z', 'p', 'q', 'r'], ['p', 'q', 'r', 'x', 'y', 'z'], ['x', 'y', 'a', 'p', 'q', 'b']]
+    else:
+        inner = SingleListGrader(answers=['a', 'b', 'c'], subgrader=StringGrader(), ordered=not unordered_inner)
+        fresh = SingleListGrader(answers=['a', 'b', 'c'], subgrader=StringGrader(), ordered=not unordered_inner)
+        outer = lambda: ListGrader(answers=[['x', 'y', 'z'], ['p', 'q', 'r']], subgraders=inner)      # noqa: E731
+        own = ['a, b, c', 'c, a, b', 'a, b, x', 'p, q, r', 'x, y, z']
+        outer_in = [['x, y, z', 'p, q, r'], ['p, q, r', 'x, y, z'], ['x, y, a', 'p, q, b']]
+    return inner, fresh, outer, own, outer_in
+
+
+def items_nested_reuse(tier):
+    for kind in ('list', 'single'):
+        for unordered in (False, True):
+            for plan in ('outer-built', 'outer-built-and-used', 'inner-used-then-outer-used'):
+                yield {'kind': kind, 'unordered': unordered, 'plan': plan}
+
+
+def judge_nested_reuse(spec, rec):
+    inner, fresh, outer, own, outer_in = _nested_world(spec['kind'], spec['unordered'])
+    if spec['plan'] == 'inner-used-then-outer-used':
+        for sub in own:
+            call(inner, None, sub if isinstance(sub, str) else list(sub))
+    og = outer()
+    if spec['plan'] != 'outer-built':
+        for sub in outer_in:
+            call(og, None, list(sub))
+    for sub in own:
+        arg = sub if isinstance(sub, str) else list(sub)
+        st_, res = call(inner, None, arg)
+        st_f, res_f = call(fresh, None, sub if isinstance(sub, str) else list(sub))
+        rec.calls(2)
+        if st_ != st_f or (st_ == 'ok' and res != res_f) or (st_ == 'err' and type(res) is not type(res_f)):
+            raise Violation('nested-reuse/own-problem-graded-differently', '%s grader with its own answers [a, b, c], also '
+                            'nested in an outer ListGrader (%s): submission %r gives %s, a grader that was never nested gives '
+                            '%s' % (spec['kind'], spec['plan'], sub, (st_, str(res)[:160]), (st_f, str(res_f)[:160])))
+    rec.cls('nested-reuse/judged')
+    rec.nontrivial()
+    return {'plan': spec['plan']}
+
+
 PARTS = [
+    Part('nested-reuse', 'enum', judge_nested_reuse, items=items_nested_reuse, exhaustive=True, shards=4),
     Part('sibling-history', 'enum', judge_sibling_history, items=items_sibling_history, exhaustive=True),
     Part('enum2', 'enum', judge_enum, items=items_enum2, exhaustive=True),
     Part('enum3', 'enum', judge_enum, items=items_enum3, exhaustive=True),
